@@ -10,3 +10,4 @@ from . import file_discovery  # noqa: F401
 from . import configuration  # noqa: F401
 from . import primitives  # noqa: F401
 from . import pragmas  # noqa: F401
+from . import api  # noqa: F401
